@@ -171,10 +171,14 @@ func (s *backendStorageEtcd) EtcdKeyUpdated(client *EtcdClient, key string, data
 	var info BackendInformationEtcd
 	if err := json.Unmarshal(data, &info); err != nil {
 		log.Printf("Could not decode backend information %s: %s", string(data), err)
+		// The key no longer holds a usable backend, forget a previous value.
+		s.EtcdKeyDeleted(client, key, prevValue)
 		return
 	}
 	if err := info.CheckValid(); err != nil {
 		log.Printf("Received invalid backend information %s: %s", string(data), err)
+		// The key no longer holds a usable backend, forget a previous value.
+		s.EtcdKeyDeleted(client, key, prevValue)
 		return
 	}
 
